@@ -70,11 +70,24 @@ for p in sorted(os.listdir(CAND)):
                 "note": note}
         json.dump(meta, open(f"{d}/meta.json", "w"), indent=1, ensure_ascii=False)
         rows.append((sid, p, "reported (exit 1)" if rc == 1 else ("silent (exit 0)" + "".join(f"; ./check {o_['check']} reports it" for o_ in other if o_["exit_code"] == 1)) if rc == 0 else f"rc={rc}", "; ".join(w.split("  [")[0] for w in whats)[:150], ", ".join(sorted({w.split("[")[-1].rstrip("]").split(" N=")[0] for w in whats if "[" in w}))[:90], note[:80]))
+# rows of earlier rounds whose candidates are not in work/cand any more (a fresh restore keeps seeded/, not work/) stay as they are
+done = {r[0] for r in rows}
+raw = {}
+if os.path.exists(f"{OUT}/RESULTS.md"):
+    for line in open(f"{OUT}/RESULTS.md"):
+        m = re.match(r"\| (C\d+-m\d+) \| (C\d+) \| ([^|]*) \|", line)
+        if m and m.group(1) not in done:
+            raw[m.group(1)] = line.rstrip("\n")
+            rows.append((m.group(1), m.group(2), m.group(3).strip(), "", "", ""))
+def _key(r):
+    m = re.match(r"(C\d+)-m(\d+)", r[0])
+    return (m.group(1), int(m.group(2))) if m else (r[0], 0)
+rows.sort(key=_key)
 with open(f"{OUT}/RESULTS.md", "w") as f:
     f.write("# Seeded changes and what the checks said (quick tier)\n\nEach change was written by a sub-agent that saw only the property text (m3-m6: also short descriptions of the earlier ones for the same property, to avoid duplicates; m5/m6 had to need a LARGE state: 10+ groups, 12+ members, ids above 100, 25+ calls, ... or, for C15-C17, long or unusual inputs; m7 and up come from sub-agents that saw ALL twenty property texts and chose the property themselves - the last of them told to assume a strong checker and to write what it would most likely miss - and are filed under the first property their author named); each is confirmed (builds, suite passes, "
             "demo fails with / passes without). `tools/seedrun.sh <id> seeded/<id>/patch.diff <Cxx>` reproduces a row.\n\n| id | property | check result | what was reported | found by | note |\n|---|---|---|---|---|---|\n")
     for r in rows:
-        f.write("| " + " | ".join(r) + " |\n")
+        f.write((raw[r[0]] if r[0] in raw else "| " + " | ".join(r) + " |") + "\n")
     n = sum(1 for r in rows if r[2].startswith("reported"))
     f.write(f"\n{n} of {len(rows)} reported by the check of the property they were written for; the others carry a note (out of the properties' domain, or breaking another property whose check reports them).\n")
 print(len(rows), "seeded dirs;", sum(1 for r in rows if r[2].startswith("reported")), "reported")
